@@ -216,10 +216,12 @@ def op_model(node, env=None, plain=False):
         k = node[1]
         return lambda xs: [(i, (xs[max(0, i - k)], xs[i])) for i in range(len(xs))]
     if name == 'pad_start':
-        k, val = node[1], node[2]
+        from .progs import pad_value
+        k, val = node[1], pad_value(node[2])
         return lambda xs: ([(0, val if val is not None else xs[0])] * k if xs else []) + _ident(xs)
     if name == 'pad_end':
-        k, val = node[1], node[2]
+        from .progs import pad_value
+        k, val = node[1], pad_value(node[2])
         return lambda xs: _ident(xs) + ([(len(xs), val if val is not None else xs[-1])] * k if xs else [])
     if name == 'start_with':
         from .progs import padding_of
